@@ -67,11 +67,11 @@ AtomicMove<SlotType, BUFFER_SIZE> {
     #[inline(always)]
     fn publish_movable(&self, item: SlotType) -> (Option<NonZeroU32>, Option<SlotType>) {
         match self.leak_slot_internal(|| false) {
-            Some( (slot_ref, slot_id, len_before) ) => {
+            Some( (slot_ref, slot_id, _len_before) ) => {
                 vp!("am.p.write", slot_id);
                 unsafe { ptr::write(slot_ref, item); }
                 self.publish_leaked_internal(slot_id);
-                (NonZeroU32::new(len_before+1), None)
+                (NonZeroU32::new(self.len_after_publishing(slot_id)), None)
             },
             None => (None, Some(item)),
         }
@@ -88,11 +88,11 @@ AtomicMove<SlotType, BUFFER_SIZE> {
               -> Option<SetterFn> {
 
         match self.leak_slot_internal(report_full_fn) {
-            Some( (slot_ref, slot_id, len_before) ) => {
+            Some( (slot_ref, slot_id, _len_before) ) => {
                 vp!("am.p.write", slot_id);
                 setter_fn(slot_ref);
                 self.publish_leaked_internal(slot_id);
-                report_len_after_enqueueing_fn(len_before+1);
+                report_len_after_enqueueing_fn(self.len_after_publishing(slot_id));
                 None
             }
             None => Some(setter_fn),
@@ -221,6 +221,16 @@ AtomicMove<SlotType, BUFFER_SIZE> {
         while !self.try_publish_leaked_internal(slot_id) {
             relaxed_wait();
         }
+    }
+
+    /// Tells how many elements were available for consumption, up to (and including) the one just published under `slot_id`,
+    /// as observed *after* that publication completed -- never less than 1.\
+    /// The length observed when the slot was claimed (by [Self::leak_slot_internal()]) may be arbitrarily out of date by then:
+    /// consumers may have taken every element (and parked) while the publication was in progress, so wake-up decisions must not rely on it.
+    #[inline(always)]
+    pub fn len_after_publishing(&self, slot_id: u32) -> u32 {
+        let head = self.head.load(Relaxed);
+        i32::max(1, slot_id.overflowing_add(1).0.overflowing_sub(head).0 as i32) as u32
     }
 
     /// Equivalent to [Self::publish_leaked_internal()], but without spinning
